@@ -555,6 +555,39 @@ def real_canary_record():
     )
 
 
+TYPED_FIELDS = [("string", "s"), ("wstring", "w"), ("uri", "u"), ("varint", "n"), ("filesize", "fs"), ("unix_file_mode", "mode"), ("dynamic", "o"),
+                ("dynamic", "d2"), ("stringlist", "sl"), ("record", "sub"), ("record[]", "subs")]
+
+
+def real_typed_record():
+    """A real record for the typed matcher: canary values in string / wstring / uri / varint / filesize / unix_file_mode /
+    dynamic / stringlist slots, and canary-holding records nested in `record` and `record[]` fields."""
+    from flow.record import RecordDescriptor, fieldtypes
+
+    c = real_classes()
+    if "typed_desc" not in c:
+        c["typed_desc"] = RecordDescriptor("c09/typed", TYPED_FIELDS)
+
+        class CFUri(StrMixin, fieldtypes.uri):
+            pass
+
+        class CFSize(IntMixin, fieldtypes.filesize):
+            pass
+
+        class CFMode(IntMixin, fieldtypes.unix_file_mode):
+            pass
+
+        class CFStringList(ListMixin, fieldtypes.stringlist):
+            pass
+
+        c.update(CFUri=CFUri, CFSize=CFSize, CFMode=CFMode, CFStringList=CFStringList)
+    return c["typed_desc"](
+        s=c["CFStr"]("Abc Def"), w=c["CFStr"]("wide"), u=c["CFUri"]("http://h/p/file.txt"), n=c["CFInt"](5), fs=c["CFSize"](4096),
+        mode=c["CFMode"](0o644), o=c["CFObj"]._make(1), d2=c["CFStr"]("dyn"), sl=c["CFStringList"]([CStr("x1"), CStr("y2")]),
+        sub=real_canary_record(), subs=[real_canary_record()],
+    )
+
+
 def real_plain_record():
     c = real_classes()
     return c["desc"](s="Abc Def", t="other", n=5, l=["a1", "b2"], k=[1, 2, 3], o="plain")
@@ -563,7 +596,7 @@ def real_plain_record():
 def count_canaries(rec):
     """How many slots of a real record still hold canary-tagged values (what survived Record.__setattr__)."""
     n = 0
-    for k in ("s", "t", "n", "l", "k", "o"):
+    for k in ("s", "t", "n", "l", "k", "o", "w", "u", "fs", "mode", "d2", "sl"):
         v = getattr(rec, k, None)
         if isinstance(v, CanaryBase):
             n += 1
